@@ -4,11 +4,11 @@ VIEW McView
 CHECK_DEADLOCK FALSE
 CONSTANTS
   Sizes <- CtxSizes
-  Limits <- LimMix
+  Limits <- Lim0
   Fills <- NoFill
   Alphabet <- CtxAlphabet
   Resizes <- CtxResizes
-  MaxDepth = 7
+  MaxDepth = 6
   Emit = TRUE
   CheckDump = FALSE
   ExcuseKnown = TRUE
